@@ -11,6 +11,14 @@ import (
 
 func (r *runner) runOpMore(p *flags.Parser, op *OpSpec, or *OpResult) {
 	switch op.Op {
+	case "attach":
+		// AddGroup / AddCommand / AddOption in the middle of a history
+		err, pan := r.applyAttach(p, op.Attach)
+		if pan != nil {
+			panic(pan)
+		}
+		or.Err = renderErr(err)
+		or.Ret = "nil"
 	case "ini":
 		ip := flags.NewIniParser(p)
 		ip.ParseAsDefaults = op.Ini.AsDefaults
